@@ -76,6 +76,19 @@ def lockstep_cases(repo):
         cases.append(('sequence of two%s' % tag, 'sequence%s' % tag,
                       [Obj('SequenceDescriptor', {'id': 301001, 'name': 's', 'members': [el, element(1002)]})],
                       {'nbits_of_associated': list(al)}, {'nbits_associated_list': list(al)}))
+        # a 221YYY span that runs across non-element members: both sides must count the same members towards YYY
+        for dnp in (1, 2, 3):
+            spans = [
+                ('sequence then element', [Obj('SequenceDescriptor', {'id': 301001, 'name': 's', 'members': [element(12101), element(12102)]}), element(12103)]),
+                ('operator then elements', [operator(201, 130), element(12101), element(12102), operator(201, 0)]),
+                ('fixed replication then element', [Obj('FixedReplicationDescriptor', {'id': 101002, 'members': [element(12101)]}), element(12103)]),
+                ('delayed replication then element', [Obj('DelayedReplicationDescriptor', {'id': 101000, 'members': [element(12101)], 'factor': element(31001)}), element(12103)]),
+                ('class 1 element, element, element', [element(1001), element(12101), element(12102)]),
+            ]
+            for sname, members in spans:
+                cases.append(('%s with %d left of a 221YYY span%s' % (sname, dnp, tag), 'span under 221%s' % tag, members,
+                              {'nbits_of_associated': list(al), 'data_not_present_count': dnp},
+                              {'nbits_associated_list': list(al), 'data_not_present_count': dnp}))
     return cases
 
 
@@ -95,6 +108,55 @@ def rule_r1(repo, rule='C09.R1'):
             rr.fail('lockstep:%s' % key, wfi.where, '%s: the coder emits %s, the wirer consumes %s; the hierarchical view and the nested renderings would be '
                     'shifted against the flat data' % (name, fmt(cs), fmt(ws)), witness={'case': name})
     rr.extra['cases'] = n
+    rr.require_floor(150)
+    return rr
+
+
+def rule_registered(repo, rule='C09.R7'):
+    """Over the lockstep cases: every value node the wiring puts into the tree is registered under its flat index, so a bitmap
+    link (or the 222000 quality branch) that designates that entry finds its owner."""
+    rr = RuleResult(rule, 'every value node placed in the tree is addressable through its flat index (index_to_node), in every wiring regime')
+    wfi = repo.method('TemplateData', 'wire_members')
+
+    def value_nodes(nodes, out):
+        for n in nodes:
+            if not isinstance(n, Obj):
+                continue
+            if repo.has_cls(n.cls) and repo.is_subclass(n.cls, 'ValueDataNode'):
+                out.append(n)
+            ms = n.fields.get('members')
+            if isinstance(ms, list):
+                value_nodes(ms, out)
+            f = n.fields.get('factor')
+            if isinstance(f, Obj):
+                value_nodes([f], out)
+        return out
+
+    seen = 0
+    for name, key, members, so, wo in lockstep_cases(repo):
+        _, w = run_wirer(repo, members, wo)
+        for r in w:
+            if not r.ok:
+                continue
+            me = r.locals['self']
+            reg = me.fields.get('index_to_node')
+            nodes = value_nodes(me.fields.get('decoded_nodes') or [], [])
+            if not isinstance(reg, dict):
+                raise AnalysisError('index_to_node is not a dict after wiring (%r)' % (reg,))
+            for n in nodes:
+                seen += 1
+                idx = n.fields.get('index')
+                if not isinstance(idx, int):
+                    continue
+                if reg.get(idx) is not n:
+                    rr.fail('index_to_node:%s' % key, wfi.where,
+                            '%s: the %s for flat entry %r is put into the tree but not registered in index_to_node: a bitmap link or quality '
+                            'value that designates this entry raises KeyError (or lands on another node) when the message is wired' % (name, n.cls, idx),
+                            witness={'case': name})
+        rr.instance('%s' % name)
+    rr.extra['value_nodes_checked'] = seen
+    if seen < 60:
+        raise AnalysisError('only %d value nodes seen in the wiring cases' % seen)
     rr.require_floor(150)
     return rr
 
@@ -544,5 +606,8 @@ def run(repo, check):
     for f in r6.findings:
         f.rule = 'C09.R6'
     check.add(r6)
+    check.run_rule(rule_registered, repo)
+    from sa.rules.common import share
+    share(check, repo, c06.rule_alias, 'C09.R8', 'node / link records: one per subset when uncompressed, one shared record when compressed (shared with C05.R3 / C06.R5)', args=('C09.R8',))
     check.assumptions = ['each primitive appends exactly one flat entry (C01.R3 / C02.R5), so emissions count flat entries',
                          'conservation of the values of a particular message is a runtime fact and is not decided']
